@@ -195,6 +195,8 @@ impl TaskManager {
 		// Wake up any waiting tasks so they can check the stop flag and exit
 		self.memtable_notify.notify_one();
 		self.level_notify.notify_one();
+		#[cfg(surrealkv_verif)]
+		crate::verif::gate("close.stop_sent", &[]);
 
 		// Wait for any in-progress compactions to complete (no timeout - wait
 		// indefinitely)
@@ -205,6 +207,8 @@ impl TaskManager {
 			tokio::time::sleep(tokio::time::Duration::from_millis(50)).await;
 		}
 
+		#[cfg(surrealkv_verif)]
+		crate::verif::gate("close.tasks_idle", &[]);
 		// Now it's safe to wait for all tasks to complete
 		let task_handles = self.task_handles.lock().unwrap().take().unwrap();
 		for handle in task_handles {
